@@ -31,12 +31,14 @@ def gate_instances():
         out.append((f"MultiRZ[{n}]", 1, lambda p, n=n: qp.MultiRZ(p[0], wires=list(range(n)))))
     for w in (("X", "ZY") if tier == "quick" else ("X", "Y", "Z", "XX", "ZY", "XYZ")):
         out.append((f"PauliRot[{w}]", 1, lambda p, w=w: qp.PauliRot(p[0], w, wires=list(range(len(w))))))
-    for (dim, n) in ((2, 2), (3, 2)):
+    for (dim, n) in ((4, 2), (2, 2), (3, 2), (7, 3), (5, 3)):      # dim = 2^n first: its generator is +-identity (no frequency)
         out.append((f"PCPhase[{dim},{n}]", 1, lambda p, dim=dim, n=n: qp.PCPhase(p[0], dim=dim, wires=list(range(n)))))
     out.append(("GlobalPhase", 1, lambda p: qp.GlobalPhase(p[0], wires=[0])))
     for cw in ((5,), (5, 6)):
         for b in ("RX", "RY", "RZ", "PhaseShift"):
             out.append((f"C({b},{len(cw)})", 1, lambda p, b=b, cw=cw: qp.ctrl(getattr(qp, b)(p[0], wires=0), control=list(cw))))
+    for b, nwb in (("IsingXY", 2), ("IsingXX", 2), ("SingleExcitation", 2)):      # same class and size as C(...,2) above, other base
+        out.append((f"C({b},1)", 1, lambda p, b=b, nwb=nwb: qp.ctrl(getattr(qp, b)(p[0], wires=list(range(nwb))), control=[5])))
     # generators with a NON-equidistant spectrum (all pairwise eigenvalue differences are frequencies, not only those to the lowest one)
     out.append(("Evolution[2Z0+Z1/2]", 1, lambda p: qp.evolve(2.0 * qp.Z(0) + 0.5 * qp.Z(1), p[0])))
     out.append(("Evolution[X0X1+3Z2/2]", 1, lambda p: qp.evolve(1.0 * (qp.X(0) @ qp.X(1)) + 1.5 * qp.Z(2), p[0])))
@@ -106,5 +108,19 @@ for tag, npar, f in gate_instances():
         it["status"], it["detail"] = "notex", str(e)[:200]
     except Exception as e:
         it["status"], it["detail"] = "error", f"{type(e).__name__}: {str(e)[:200]}"
+# history independence: the declaration of an operator must not depend on which operators were queried before it
+first = {}
+for (tag, npar, f), it in zip(gate_instances(), items):
+    first[tag] = it.get("declared")
+for tag, npar, f in reversed(gate_instances()):
+    if first.get(tag) is None:
+        continue
+    try:
+        again = [[str(Fr(x).limit_denominator(1000)) for x in fr] for fr in qp.gradients.parameter_frequencies(f([0.3 + 0.1 * k for k in range(npar)]))]
+    except Exception as e:
+        again = f"raised {type(e).__name__}"
+    if again != first[tag]:
+        items.append({"name": tag + " (re-queried in reverse order)", "status": "ok", "detail": "", "declared": first[tag],
+                      "numeric_fail": {"history_dependent_declaration": {"first_pass": first[tag], "second_pass": again}}})
 json.dump(oblig, open(req["outdir"] + "/obligations.json", "w"))
 print(json.dumps({"items": items, "wall": time.time() - t0}))
